@@ -4,6 +4,8 @@ program - the bytes at the returned pointer against the model's image for that p
 a successful add is a successful `relocate_to_base(rx)` of `program ++ [flatten, resolve]`, so everything Props/C04E proves
 about the relocated sections (`reloc_correct`, `reloc_abs_correct`, `reloc_rel_correct`, `reloc_table_correct`,
 `reloc_label_address`) holds with `B = rx`, and the image is the copy of exactly those sections.
+With a dual-mapped allocator the span has two addresses: the code is relocated to the executable one (`rx`), stored through the
+writable one (`rw`); `jit_add_dual` states the distinction.
 -/
 import AsmjitVerif.Model.JitAdd
 import AsmjitVerif.Props.C04E
@@ -88,5 +90,53 @@ theorem jit_add_no_image_on_failure (s : State) (rx : BitVec 64) (e : Err) (s' :
 rewritten instruction, padding and the slot -/
 example :
     (jitAdd (run (State.init .x64 noBase) [.jmpAbs .call .dflt 0x123456789abc#64]) 0x7f0000001040#64).2 matches .ok _ := by decide
+
+/-! ### the two views of a span (`JitAllocatorOptions::kUseDualMapping`: `rx ≠ rw`) -/
+
+/-- `relocate_to_base(b)` makes `b` the CodeHolder's base address, whatever the outcome of the relocation loop -/
+theorem relocate_base (s : State) (b : BitVec 64) (hb : b ≠ noBase) : (relocate s b).1.base = b := by
+  unfold relocate
+  rw [if_neg hb]
+  dsimp only
+  split
+  · split <;> rfl
+  · rfl
+
+/-- **jit_add_dual.** `_add` on a span with executable view `rx` and writable view `rw` (both alias the same bytes): on success
+ * the CodeHolder is relocated to the address the code is *executed* at - the state is the one of `relocate … sp.rx`
+   (`jit_add_program`) and its base address is `sp.rx`;
+ * the image was stored through the writable view and is what a fetch through the executable view sees;
+ * nothing depends on the value of `rw`: a dual-mapped span gives the same image and the same state as a single-mapped one. -/
+theorem jit_add_dual (s s' : State) (sp sp' : Span) (img : Bytes) (hrx : sp.rx ≠ noBase)
+    (h : jitAddVia s sp = (s', .ok img, some sp')) :
+    jitAdd s sp.rx = (s', .ok img) ∧ s'.base = sp.rx ∧ sp'.fetch sp.rx = some img ∧ sp'.rx = sp.rx ∧ sp'.rw = sp.rw ∧
+    (∀ rw' : BitVec 64, (jitAddVia s { sp with rw := rw' }).1 = s' ∧ (jitAddVia s { sp with rw := rw' }).2.1 = .ok img) := by
+  unfold jitAddVia at h
+  rcases hj : jitAdd s sp.rx with ⟨s1, r⟩
+  rw [hj] at h
+  cases r with
+  | failed e => simp at h
+  | noCode => simp at h
+  | ok img1 =>
+    simp only [Span.write, if_true, Prod.mk.injEq, JitRes.ok.injEq, Option.some.injEq] at h
+    obtain ⟨h1, h2, h3⟩ := h
+    subst h1; subst h2; subst h3
+    obtain ⟨_, s2, red, _, _, hrel, _, _, _⟩ := jit_add_refines_relocate _ _ _ _ hj
+    have hbase : s1.base = sp.rx := by
+      have := relocate_base s2 sp.rx hrx
+      rw [hrel] at this; exact this
+    refine ⟨rfl, hbase, by simp [Span.fetch], rfl, rfl, fun rw' => ?_⟩
+    unfold jitAddVia
+    simp [hj]
+
+/-- relocating to the writable view instead is a different relocation as soon as the views differ: the base address (and with it
+every absolute reference, `reloc_abs_correct`) is off by `rw - rx` -/
+theorem relocate_wrong_view (s : State) (rx rw : BitVec 64) (h : rw ≠ rx) (hw : rw ≠ noBase) (hx : rx ≠ noBase) :
+    (relocate s rw).1.base ≠ (relocate s rx).1.base := by
+  rw [relocate_base s rw hw, relocate_base s rx hx]; exact h
+
+/-- a store through the executable address does not reach the span when the views differ -/
+theorem write_needs_writable_view (sp : Span) (img : Bytes) (h : sp.rx ≠ sp.rw) : sp.write sp.rx img = none := by
+  unfold Span.write; rw [if_neg h]
 
 end AsmjitVerif.CodeHolder
